@@ -88,16 +88,19 @@ class Tape:
 # Minimiser
 # ---------------------------------------------------------------------------------------------
 
-def minimise(tape: List[int], fails, budget: int = 400) -> List[int]:
+def minimise(tape: List[int], fails, budget: int = 400, time_budget: float = 20.0) -> List[int]:
     """Shrink `tape` while `fails(candidate)` stays true.
 
     `fails` must return True iff executing the candidate produces the *same violation class*.
     Strategy: shortest failing prefix; delete blocks 8/4/2/1; zero entries; halve / decrement.
     """
+    import time as _time
     calls = [0]
+    t_end = _time.time() + time_budget     # wall clock bounds the *effort* only, never a verdict
 
     def ok(c: List[int]) -> bool:
-        if calls[0] >= budget:
+        if calls[0] >= budget or _time.time() > t_end:
+            calls[0] = budget
             return False
         calls[0] += 1
         return bool(fails(c))
